@@ -313,6 +313,11 @@ package core
 
 // The tree walk of the expansion (processPasteDirectiveList <-> processDirective) and the rule collection are not under
 // contract yet: their contracts are assumed where processPasteDirective calls them.
+// gListCtx / gWalks (ghost): the context cursor as the last completed walk over a directive list left it, and how many
+// walks have completed. Assumed of the walk (trusted): it never changes the HasExplicitContext flag of a directive nor
+// the Parent of a directive that existed before it started (a copy is attached once, when it is created).
+//@ ghost field JApiCore.gListCtx *directive.Directive
+//@ ghost field JApiCore.gWalks int
 //@ func (*JApiCore).processPasteDirectiveList(core, list)
 //@   property C10,C01
 //@   attr trusted
@@ -321,7 +326,23 @@ package core
 //@   requires dirsOK(list)
 //@   requires[C10,C01,@paste-depth-bounded] pasteDepthOK(core)
 //@   modifies anything
+//@   ghost core.gListCtx := core.currentContextDirective
+//@   ghost core.gWalks := old(core.gWalks) + 1
+//@   ensures forallp(x, (*directive.Directive)(x).HasExplicitContext, (*directive.Directive)(x).HasExplicitContext == old((*directive.Directive)(x).HasExplicitContext))
+//@   ensures forallp(x, (*directive.Directive)(x).Parent, imp(!fresh(x), (*directive.Directive)(x).Parent == old((*directive.Directive)(x).Parent)))
 //@   ensures core.pasteDepth == old(core.pasteDepth) && macrosOK(core) && childrenOK() && len(core.macro) == old(len(core.macro))
+// Re-resolution of one directive during expansion (C10, C11): the copy is attached by processContext (C11's contract).
+// After the children of a directive WITHOUT "( )" have been walked, the context cursor stays where that walk left it: a
+// directive that follows in the pasted text belongs where it would belong in the expanded text. After the children of
+// a directive WITH "( )", the cursor is the parent the copy was attached to. (Verified for these two clauses only.)
+//@ func (*JApiCore).processDirective(core, d)
+//@   property C10,C11
+//@   attr assumesafe
+//@   requires core != nil && macrosOK(core) && childrenOK() && directive.dirOK(d) && pasteDepthOK(core) && dirsOK(d.Children)
+//@   modifies anything
+//@   ensures[C10,C11,@context-after-implicit-subtree] imp(result == nil && old(d.type_) != directive.Paste && !d.HasExplicitContext && core.gWalks > old(core.gWalks),
+//@       core.currentContextDirective == core.gListCtx)
+//@   ensures[C10,C11,@context-after-explicit-subtree] imp(result == nil && old(d.type_) != directive.Paste && d.HasExplicitContext, core.currentContextDirective == dd.Parent)
 //@ func (*JApiCore).collectRulesFromDirectives(core, dd)
 //@   attr trusted
 //@   requires core != nil
